@@ -485,14 +485,19 @@ def check_run(case, facts, run, exp, tag=""):
         return out
     init_stage_error = exp.get("stage") == "init"
     if got != exp["verdict"]:
+        # what the documentation implies if the position-zero check did not exist: a wrong
+        # outcome of that check (F6) shows as this verdict instead of the expected one
+        a2 = dict(case)
+        a2["args"] = dict(args, allow_position_zero=True)
+        exp_nopz = expect(a2, facts)
         if exp["reasons"] == ["all-nonsample"]:
-            out.append(("individuals-all-nonsample-" + ("accepted" if got == "ok" else got.lower()) + tag,
+            out.append(("individuals-all-nonsample-" + ("libraryerror" if got == "LibraryError" else "accepted") + tag,
                         "an explicitly listed individual whose nodes are all non-samples: documented as an error "
                         "(ValueError family), got %s %s" % (got, run.get("msg", ""))))
         elif f6_applies(args) and not init_stage_error and \
                 (got in ("TypeError", "IndexError") or
                  (set(exp["reasons"]) <= {"position zero"} and
-                  (got == "ok" or (got == "ValueError" and "position of 0" in run.get("msg", ""))))):
+                  (got == exp_nopz["verdict"] or (got == "ValueError" and "position of 0" in run.get("msg", ""))))):
             out.append((f6_key(args, run) + tag, "expected %s %s, got %s %s" % (exp["verdict"], exp["reasons"], got, run.get("msg", ""))))
         else:
             out.append(("verdict" + tag, "expected %s %s, got %s %s" % (exp["verdict"], exp["reasons"], got, run.get("msg", ""))))
